@@ -168,6 +168,11 @@ static void * liberasurecode_rs_vand_init(struct ec_backend_args *args,
         goto error;
     }
 
+    // The generator matrix needs at least one data and one parity row
+    if (desc->k < 1 || desc->m < 1) {
+        goto error;
+    }
+
      /*
      * ISO C forbids casting a void* to a function pointer.
      * Since dlsym return returns a void*, we use this union to
